@@ -216,6 +216,7 @@ func c13Deliver(w *core.WorkerCtx, h *c13Hist, order []int, name string, opts c1
 		inV[h.vs[i].Hash] = true
 	}
 	var invalid []ledger.H
+	var pendingX []accountant.Vertex
 	parkedOnce := 0
 	for step, idx := range order {
 		v := h.vs[idx]
@@ -289,6 +290,34 @@ func c13Deliver(w *core.WorkerCtx, h *c13Hist, order []int, name string, opts c1
 				invalid = append(invalid, bad.Hash)
 			}
 		}
+		// tentative tips that do not belong to the history come and go: an overdrawing vertex is admitted on a current tip
+		// and, some deliveries later, dropped when its child arrives (the vertex count goes up and down meanwhile)
+		if opts.dropPairs {
+			if rng.Intn(3) == 0 {
+				var tip ledger.H
+				var wgt uint64
+				for th := range t.Prev.Leaves {
+					if tv, ok := t.Prev.Vertex(th); ok && tv.Weight >= wgt {
+						tip, wgt = th, tv.Weight
+					}
+				}
+				if wgt > 0 {
+					xt := world.NewTrx(world.Users[1+step%2], world.Users[0].Addr, spice.Melange{Currency: 1 << 50}, nil)
+					x := ledger.ForgeVertex(world.Sealers[0], xt, tip, tip, wgt+1, world.Now())
+					if world.Deliver(t, &x, "overdrawing tentative tip outside the history") == nil {
+						pendingX = append(pendingX, x)
+					}
+				}
+			}
+			if len(pendingX) > 0 && rng.Intn(2) == 0 {
+				x := pendingX[0]
+				pendingX = pendingX[1:]
+				yt := world.NewTrx(world.Users[0], world.Users[1].Addr, spice.Melange{}, []byte("child of an overdrawing tip"))
+				y := ledger.ForgeVertex(world.Sealers[1], yt, x.Hash, x.Hash, x.Weight+1, world.Now())
+				world.Deliver(t, &y, "child of the overdrawing tip (drops it)")
+				w.R.Count("c13_tentative_tips_dropped_between_deliveries", 1)
+			}
+		}
 		if opts.duplicates && rng.Intn(5) == 0 {
 			world.Deliver(t, &v, "duplicate")
 		}
@@ -303,6 +332,11 @@ func c13Deliver(w *core.WorkerCtx, h *c13Hist, order []int, name string, opts c1
 				}
 			}
 		}
+	}
+	for _, x := range pendingX {
+		yt := world.NewTrx(world.Users[0], world.Users[1].Addr, spice.Melange{}, []byte("child of an overdrawing tip"))
+		y := ledger.ForgeVertex(world.Sealers[1], yt, x.Hash, x.Hash, x.Weight+1, world.Now())
+		world.Deliver(t, &y, "child of the overdrawing tip (drops it)")
 	}
 	// step the retry path until the buffer is empty (bounded)
 	steps := 0
@@ -337,6 +371,7 @@ type c13Opts struct {
 	companions, duplicates, retryBetween bool
 	drainEvery                           int
 	viaGossip                            bool
+	dropPairs                            bool
 }
 
 // c13LongLived: one node keeps receiving reversed stages of a long valid history; every stage stays within the bounds
@@ -394,9 +429,96 @@ func bucketN(n int) int {
 	return 100
 }
 
+// c13ComeAndGo: between the moment a vertex is parked and the moment its parent arrives other things happen to the
+// ledger that leave its size as it was: a tentative overdrawing tip, present when the orphan was parked, is dropped
+// (its child arrives) and then the parent is admitted. The orphan must be admitted by the next replays.
+func c13ComeAndGo(w *core.WorkerCtx) {
+	rng := core.Rand(w.Seed, "C13comeandgo", w.Batch)
+	desc := fmt.Sprintf("c13 come and go: orphan parked, a tentative tip dropped, the parent admitted seed=%d batch=%d", w.Seed, w.Batch)
+	w.Mark("%s", desc)
+	world := ledger.NewWorld(rng, w.R, []string{"C13"}, allSnapOracles, desc)
+	defer world.Close()
+	if _, err := ledger.Setup(world, ledger.Profile{Nodes: 1, Users: 4, SupplyClass: 0, Delivery: "lockstep"}); err != nil {
+		w.R.Inconc("setup failed: " + err.Error())
+		return
+	}
+	n := world.Nodes[0]
+	u := world.Users
+	f := world.NewTrx(u[0], u[1].Addr, spice.Melange{Currency: 10}, nil)
+	world.Propose(n, &f, "fund")
+	for round := 0; round < w.Pick(6, 30); round++ {
+		s := n.Prev
+		var tip ledger.H
+		var wgt uint64
+		for th := range s.Leaves {
+			if tv, ok := s.Vertex(th); ok && tv.Weight >= wgt {
+				tip, wgt = th, tv.Weight
+			}
+		}
+		if wgt == 0 {
+			break
+		}
+		xs := 1 + round%3 // how many tentative tips come and go
+		var xv []accountant.Vertex
+		for i := 0; i < xs; i++ {
+			xt := world.NewTrx(u[1+i%2], u[0].Addr, spice.Melange{Currency: 1 << 50}, nil)
+			x := ledger.ForgeVertex(world.Sealers[i%2], xt, tip, tip, wgt+1, world.Now())
+			if world.Deliver(n, &x, "overdrawing tentative tip") == nil {
+				xv = append(xv, x)
+			}
+		}
+		pt := world.NewTrx(u[0], u[2].Addr, spice.Melange{}, []byte(fmt.Sprintf("parent %d", round)))
+		p := ledger.ForgeVertex(world.Sealers[0], pt, tip, tip, wgt+1, world.Now())
+		// as many parents in a row as tips go, so that the size is the same again when the last one is in
+		chain := []accountant.Vertex{p}
+		for i := 1; i < len(xv); i++ {
+			ct := world.NewTrx(u[0], u[2].Addr, spice.Melange{}, []byte(fmt.Sprintf("parent %d.%d", round, i)))
+			c := ledger.ForgeVertex(world.Sealers[i%2], ct, chain[i-1].Hash, chain[i-1].Hash, chain[i-1].Weight+1, world.Now())
+			chain = append(chain, c)
+		}
+		last := chain[len(chain)-1]
+		vt := world.NewTrx(u[0], u[3].Addr, spice.Melange{SupplementaryCurrency: 1}, nil)
+		v := ledger.ForgeVertex(world.Sealers[1], vt, last.Hash, last.Hash, last.Weight+1, world.Now())
+		if err := world.Deliver(n, &v, "vertex before its parents"); !ledger.IsParked(err) {
+			world.Logf("round %d: the orphan was not parked: %v", round, err)
+		}
+		for _, x := range xv {
+			yt := world.NewTrx(u[0], u[1].Addr, spice.Melange{}, []byte("child of an overdrawing tip"))
+			y := ledger.ForgeVertex(world.Sealers[1], yt, x.Hash, x.Hash, x.Weight+1, world.Now())
+			world.Deliver(n, &y, "child of the overdrawing tip (drops it)")
+		}
+		for i := range chain {
+			world.Deliver(n, &chain[i], "a parent arrives")
+		}
+		admitted := false
+		for k := 0; k < 30 && !admitted; k++ {
+			world.Retry(n)
+			_, admitted = n.Prev.Vertex(v.Hash)
+			if !admitted && k%5 == 4 {
+				// the node's own ticker may hold the vertex in flight
+				time.Sleep(2 * time.Millisecond)
+				if sn, err := ledger.TakeSnap(n.Book); err == nil {
+					_, admitted = sn.Vertex(v.Hash)
+				}
+			}
+		}
+		world.EvalFor("C13", 1)
+		world.NontrivFor("C13", fmt.Sprintf("come-and-go/tips%d/admitted=%v", len(xv), admitted))
+		if !admitted {
+			world.Violate("C13", "orphan-not-admitted-after-its-parents-arrived", fmt.Sprintf("round %d: vertex %s was parked, %d tentative tips were dropped and its %d parents admitted meanwhile; after 30 replays of the orphan buffer it is still not in the ledger", round, ledger.Hex(v.Hash), len(xv), len(chain)))
+		}
+		m := world.NewTrx(u[0], u[1].Addr, spice.Melange{}, []byte("merge"))
+		world.Propose(n, &m, "merge")
+	}
+	w.R.Count("c13_come_and_go_scenarios", 1)
+}
+
 func c13Worker(w *core.WorkerCtx) {
 	if w.Batch == 1 || (w.Thorough() && w.Batch%4 == 1) {
 		c13LongLived(w)
+	}
+	if w.Batch == 2 || (w.Thorough() && w.Batch%4 == 2) {
+		c13ComeAndGo(w)
 	}
 	hists := w.Pick(2, 5)
 	for hi := 0; hi < hists; hi++ {
@@ -451,7 +573,7 @@ func c13Worker(w *core.WorkerCtx) {
 			}
 		}
 		for oi, p := range orders {
-			opts := c13Opts{companions: oi%3 == 1, duplicates: oi%2 == 0, retryBetween: oi%4 == 3, viaGossip: oi%5 == 2}
+			opts := c13Opts{companions: oi%3 == 1, duplicates: oi%2 == 0, retryBetween: oi%4 == 3, viaGossip: oi%5 == 2, dropPairs: oi%7 == 4}
 			if exhaustive6 {
 				opts = c13Opts{}
 			}
